@@ -18,6 +18,7 @@ class CallbackMonitor(Monitor):
         self.dgram_inst = collections.Counter()        # (conn name, seq) -> instance counter
         self.open = {}            # (conn name, seq) -> instance currently pending
         self.acked_at = {}        # (conn name, seq, inst) -> t when an accepted peer datagram acknowledged it
+        self.ack_ctx = {}         # (conn name, seq, inst) -> (client node, number of the update() call that processed that ack)
         self.accepted = collections.defaultdict(list)  # (receiving conn name, sig) -> [t]
         self.resolved = collections.Counter()
 
@@ -66,6 +67,10 @@ class CallbackMonitor(Monitor):
             inst = self.dgram_inst.get((cn, s))
             if inst:
                 self.acked_at.setdefault((cn, s, inst), now)
+                cur = w.current_client
+                if cur is not None and not conn.isServer:
+                    # which update() call of the client's frame loop processed this acknowledgement
+                    self.ack_ctx.setdefault((cn, s, inst), (cur.name, cur.n_update))
 
     def on_recv_app(self, conn, msgseq, payload):
         from world.udpworld import sig
@@ -111,6 +116,14 @@ class C07(UdpCheck):
             side = rng.choice(["src", "dst"])       # only one direction loses: data arrives, acks do not (or v.v.)
             cfg["phases"].insert(0, {"t0": t0, "t1": t1, side: "S", "loss": rng.choice([0.3, 0.6, 0.9])})
         n = len(cfg["clients"])
+        if rng.random() < 0.3:
+            # frame hitches: the application does not call update() for a while (loading a level, a GC pause); what arrived
+            # in the meantime is waiting in the socket when it resumes - shortly after unretried sends, so that their message
+            # timeout elapses during the hitch while the acknowledgement is already there
+            mt = cfg.get("msg_timeout", 1.0)
+            for op in [o for o in plan if o["op"] == "send" and o.get("retry") == 0 and o.get("cb")][:4]:
+                plan.append({"op": "stall", "c": op["c"], "t": round(op["t"] + rng.choice([0.05, 0.2, 0.5]) * mt, 4),
+                             "d": round(mt * rng.choice([0.6, 1.0, 1.3]), 3)})
         for j in range(rng.choice([0, 2, 6])):
             c = rng.randrange(n)
             link = rng.choice(["c%d>S" % c, "S>c%d" % c])
